@@ -6,6 +6,7 @@ import (
 	"bytes"
 	"errors"
 	"fmt"
+	"sort"
 	"strconv"
 	"strings"
 
@@ -419,8 +420,121 @@ func showOut(b []byte) string {
 	return fmt.Sprintf("n=%d,h=%016x", len(b), fnv64(b))
 }
 
+// execReads: a sequence of String reads on arbitrary input, stopped at the first failure.
+// Destinations are pre-filled with garbage; the input (incl. sentinel spare capacity) must stay untouched.
+func execReads(o hx.Op) string {
+	raw := o.Hex("in")
+	full := make([]byte, len(raw)+8)
+	copy(full, raw)
+	for i := len(raw); i < len(full); i++ {
+		full[i] = 0xa5
+	}
+	snap := append([]byte(nil), full...)
+	s := cryptobyte.String(full[:len(raw):len(full)])
+	if o.Str("nil") == "1" && len(raw) == 0 {
+		s = nil // String(nil): reading zero bytes must still succeed
+	}
+	var vals []string
+	failed := -1
+	for i, t := range o.List("ops") {
+		ok := false
+		var v []byte
+		arg := func() int {
+			n, err := strconv.Atoi(t[1:])
+			if err != nil {
+				panic(err)
+			}
+			return n
+		}
+		switch t[0] {
+		case 'e':
+			ok = true
+			v = []byte{0}
+			if s.Empty() {
+				v = []byte{1}
+			}
+		case 'u':
+			switch arg() {
+			case 1:
+				x := uint8(0xa7)
+				ok = s.ReadUint8(&x)
+				v = []byte{x}
+			case 2:
+				x := uint16(0xa7a7)
+				ok = s.ReadUint16(&x)
+				v = []byte{byte(x >> 8), byte(x)}
+			case 3:
+				x := uint32(0xa7a7a7a7)
+				ok = s.ReadUint24(&x)
+				v = []byte{byte(x >> 16), byte(x >> 8), byte(x)}
+				if ok && x>>24 != 0 {
+					ok = false // a 24-bit read must not leave high garbage
+				}
+			case 4:
+				x := uint32(0xa7a7a7a7)
+				ok = s.ReadUint32(&x)
+				v = []byte{byte(x >> 24), byte(x >> 16), byte(x >> 8), byte(x)}
+			case 6:
+				x := uint64(0xa7a7a7a7a7a7a7a7)
+				ok = s.ReadUint48(&x)
+				v = []byte{byte(x >> 40), byte(x >> 32), byte(x >> 24), byte(x >> 16), byte(x >> 8), byte(x)}
+				if ok && x>>48 != 0 {
+					ok = false
+				}
+			case 8:
+				x := uint64(0xa7a7a7a7a7a7a7a7)
+				ok = s.ReadUint64(&x)
+				v = []byte{byte(x >> 56), byte(x >> 48), byte(x >> 40), byte(x >> 32), byte(x >> 24), byte(x >> 16), byte(x >> 8), byte(x)}
+			}
+		case 'b':
+			out := []byte{0xde, 0xad}
+			ok = s.ReadBytes(&out, arg())
+			v = out
+		case 'c':
+			out := bytes.Repeat([]byte{0xa7}, arg())
+			ok = s.CopyBytes(out)
+			v = out
+		case 's':
+			ok = s.Skip(arg())
+		case 'L':
+			c := cryptobyte.String{0xde, 0xad}
+			switch arg() {
+			case 1:
+				ok = s.ReadUint8LengthPrefixed(&c)
+			case 2:
+				ok = s.ReadUint16LengthPrefixed(&c)
+			case 3:
+				ok = s.ReadUint24LengthPrefixed(&c)
+			}
+			v = c
+		default:
+			panic("c22: bad read op")
+		}
+		if !ok {
+			failed = i
+			break
+		}
+		vals = append(vals, hx.Hex(v))
+	}
+	vs := "-"
+	if len(vals) > 0 {
+		vs = strings.Join(vals, "|")
+	}
+	mut := "0"
+	if !bytes.Equal(full, snap) {
+		mut = "1"
+	}
+	if failed >= 0 {
+		return fmt.Sprintf("fail i=%d %s mutated=%s", failed, vs, mut)
+	}
+	return fmt.Sprintf("ok %s rest=%s mutated=%s", vs, hx.Hex(s), mut)
+}
+
 func exec(line string) (res string) {
 	o := hx.Parse(line)
+	if o.Cmd == "reads" {
+		return execReads(o)
+	}
 	if o.Cmd != "prog" {
 		return "bad-op"
 	}
@@ -428,16 +542,29 @@ func exec(line string) (res string) {
 	pre := o.Hex("pre")
 	fixed := o.Str("kind") == "fixed"
 	capN := o.Int("cap")
+	fin := "bytes"
+	if o.Has("fin") {
+		fin = o.Str("fin")
+	}
+	spare := 0
+	if o.Has("spare") {
+		spare = o.Int("spare")
+	}
 	var b *cryptobyte.Builder
 	var buf []byte
-	if fixed {
+	switch {
+	case fixed:
 		buf = make([]byte, len(pre), capN)
 		copy(buf, pre)
 		b = cryptobyte.NewFixedBuilder(buf)
-	} else if len(pre) == 0 {
+	case o.Str("kind") == "zero":
+		b = new(cryptobyte.Builder) // the zero value is a usable Builder
+	case len(pre) == 0 && spare == 0:
 		b = cryptobyte.NewBuilder(nil)
-	} else {
-		b = cryptobyte.NewBuilder(append([]byte(nil), pre...))
+	default: // NewBuilder appends to the caller's buffer, in place while the capacity lasts
+		g := make([]byte, len(pre), len(pre)+spare)
+		copy(g, pre)
+		b = cryptobyte.NewBuilder(g)
 	}
 	defer func() {
 		if e := recover(); e != nil {
@@ -447,11 +574,28 @@ func exec(line string) (res string) {
 	}()
 	tr := &tracker{}
 	run(tr, b, nil, prog)
-	out, err := b.Bytes()
+	var out []byte
+	var err error
+	again := false
+	switch fin {
+	case "orpanic":
+		out = b.BytesOrPanic()
+	case "again":
+		o1, e1 := b.Bytes()
+		o2, e2 := b.Bytes()
+		if (e1 == nil) != (e2 == nil) || !bytes.Equal(o1, o2) {
+			again = true
+		}
+		b.AddUint8(1)
+		prog = append(prog, &node{kind: 'u', w: 1, v: 1})
+		out, err = b.Bytes()
+	default:
+		out, err = b.Bytes()
+	}
 	if err != nil {
 		return "err"
 	}
-	mut := tr.modified()
+	mut := tr.modified() || again
 	before := append([]byte(nil), out...)
 	tr.scribble() // overwriting the arguments afterwards must not change what Bytes() returned
 	if !bytes.Equal(before, out) {
@@ -739,6 +883,13 @@ func (x *G) boundary() []*node {
 	for i := r.Intn(3); i > 0; i-- {
 		top = append(top, x.leaf())
 	}
+	if x.unwrite && r.Bool() { // Unwrite next to a boundary-sized child
+		top = append(top, x.leaf())
+		top = append(top, x.unwriteFor(top))
+	}
+	if x.misuse && r.Bool() {
+		top = append(top, x.misuseItem(0))
+	}
 	return top
 }
 
@@ -755,7 +906,7 @@ func gen(g *hx.Gen) {
 	}
 	for i := 0; i < n; i++ {
 		x := &G{g: g, r: r}
-		x.big = r.Chance(1, 12)
+		x.big = r.Chance(1, 8)
 		x.misuse = r.Chance(1, 5)
 		x.unwrite = r.Chance(1, 3)
 		var prog []*node
@@ -806,7 +957,181 @@ func gen(g *hx.Gen) {
 				capN = len(pre)
 			}
 		}
-		g.Emit("prog kind=%s cap=%d pre=%s p=%s", kind, capN, hx.Hex(pre), progStr(prog))
+		extra := ""
+		if kind == "grow" {
+			switch {
+			case len(pre) == 0 && r.Chance(1, 6):
+				kind = "zero"
+			case r.Chance(1, 5):
+				extra += fmt.Sprintf(" spare=%d", r.PickInt(1, 2, 7, 130, 300))
+			}
+		}
+		switch r.Intn(10) {
+		case 0:
+			extra += " fin=orpanic"
+		case 1:
+			extra += " fin=again"
+		}
+		feats := features(prog, kind, len(pre) > 0, extra)
+		for a := 0; a < len(feats); a++ {
+			for b := a + 1; b < len(feats); b++ {
+				g.Stat("pair." + feats[a] + "+" + feats[b])
+			}
+		}
+		for _, f := range feats {
+			if strings.HasPrefix(f, "asn1len") {
+				lenArms[f] = true
+			}
+		}
+		g.Emit("prog kind=%s cap=%d pre=%s%s p=%s", kind, capN, hx.Hex(pre), extra, progStr(prog))
+	}
+	// flushChild's ASN.1 length-form switch: arms short/0x81/0x82/0x83 are generated, 0x84 (>= 16 MiB) is a corpus case
+	g.StatN("table.asn1len.hit", len(lenArms)+1)
+	g.StatN("table.asn1len.total", 5)
+	genReads(g)
+}
+
+var lenArms = map[string]bool{}
+
+// features of one case, for the pair.<a>+<b> counters
+func features(prog []*node, kind string, pre bool, extra string) []string {
+	set := map[string]bool{"kind." + kind: true}
+	if pre {
+		set["pre"] = true
+	}
+	if strings.Contains(extra, "spare=") {
+		set["spare"] = true
+	}
+	if strings.Contains(extra, "fin=orpanic") {
+		set["orpanic"] = true
+	}
+	if strings.Contains(extra, "fin=again") {
+		set["again"] = true
+	}
+	var walk func(items []*node, depth int)
+	walk = func(items []*node, depth int) {
+		if depth >= 3 {
+			set["deep"] = true
+		}
+		for _, nd := range items {
+			switch nd.kind {
+			case 'L':
+				set[fmt.Sprintf("lp%d", nd.k)] = true
+				walk(nd.body, depth+1)
+			case 'A':
+				n := encLen(nd.body)
+				switch {
+				case n > 0xffff:
+					set["asn1len83"] = true
+				case n > 0xff:
+					set["asn1len82"] = true
+				case n > 0x7f:
+					set["asn1len81"] = true
+				default:
+					set["asn1lenShort"] = true
+				}
+				walk(nd.body, depth+1)
+			case 'U':
+				set["unwrite"] = true
+			case 'V':
+				set["value"] = true
+			case 'E', 'T', 'P':
+				set["misuse"] = true
+			case 'b':
+				if len(nd.bs) == 0 {
+					set["emptybytes"] = true
+				}
+			}
+		}
+	}
+	walk(prog, 0)
+	var out []string
+	for k := range set {
+		out = append(out, k)
+	}
+	sort.Strings(out)
+	return out
+}
+
+// genReads: sequences of String reads on inputs built to fit them, then truncated / extended / random
+func genReads(g *hx.Gen) {
+	r := g.R
+	n := g.Count(2500, 80000)
+	for i := 0; i < n; i++ {
+		var ops []string
+		var in []byte
+		k := r.Range(0, 6)
+		for j := 0; j < k; j++ {
+			switch r.Intn(9) {
+			case 0, 1:
+				w := r.PickInt(1, 2, 3, 4, 6, 8)
+				ops = append(ops, fmt.Sprintf("u%d", w))
+				in = append(in, r.Bytes(w)...)
+				g.Stat(fmt.Sprintf("reads.u%d", w))
+			case 2:
+				m := r.PickInt(0, 0, 1, 3, 17)
+				if r.Chance(1, 12) {
+					ops = append(ops, fmt.Sprintf("b%d", -r.Range(1, 3)))
+					g.Stat("reads.negative")
+					break
+				}
+				ops = append(ops, fmt.Sprintf("b%d", m))
+				in = append(in, r.Bytes(m)...)
+				g.Stat("reads.bytes")
+			case 3:
+				m := r.PickInt(0, 1, 2, 5)
+				ops = append(ops, fmt.Sprintf("c%d", m))
+				in = append(in, r.Bytes(m)...)
+				g.Stat("reads.copy")
+			case 4:
+				m := r.PickInt(0, 1, 4, -1)
+				ops = append(ops, fmt.Sprintf("s%d", m))
+				if m > 0 {
+					in = append(in, r.Bytes(m)...)
+				}
+				g.Stat("reads.skip")
+			case 5, 6, 7:
+				kk := r.PickInt(1, 1, 2, 2, 3)
+				m := r.PickInt(0, 0, 1, 2, 7, 255, 256, 300)
+				if kk == 1 && m > 255 {
+					m = 255
+				}
+				ops = append(ops, fmt.Sprintf("L%d", kk))
+				for b := kk - 1; b >= 0; b-- {
+					in = append(in, byte(m>>(8*uint(b))))
+				}
+				body := bytes.Repeat([]byte{byte(r.Intn(256))}, m)
+				in = append(in, body...)
+				g.Stat(fmt.Sprintf("reads.lp%d", kk))
+			default:
+				ops = append(ops, "e")
+				g.Stat("reads.empty")
+			}
+		}
+		switch r.Intn(6) {
+		case 0:
+			if len(in) > 0 {
+				in = in[:r.Intn(len(in))]
+				g.Stat("reads.truncated")
+			}
+		case 1:
+			in = append(in, r.Bytes(r.Range(1, 3))...)
+			g.Stat("reads.trailing")
+		case 2:
+			if r.Chance(1, 2) {
+				in = r.Bytes(r.Intn(8))
+				g.Stat("reads.random-input")
+			}
+		}
+		if r.Chance(1, 4) {
+			ops = append(ops, "e")
+		}
+		nilS := ""
+		if len(in) == 0 && r.Bool() {
+			nilS = " nil=1"
+			g.Stat("reads.nil-string")
+		}
+		g.Emit("reads in=%s%s ops=%s", hx.Hex(in), nilS, hx.JoinStrs(ops))
 	}
 }
 
